@@ -3,6 +3,7 @@
 -/
 import XonshVerif.Proofs.Tokenize
 import XonshVerif.Proofs.PegTotal
+import XonshVerif.Model.Pipeline
 namespace XV.Tz
 open XV XV.Rx
 
@@ -76,3 +77,30 @@ theorem selfProg_rejected (W : WfW) : wfCert selfProg W = false := by
   cases hl : W.lr 0 <;> simp [wfCert, wfCertAux, selfProg, ruleOK, bodyOK, itemsOK, itemFirstOK, primOK, hl]
 
 end XV.Peg
+
+namespace XV.Pipe
+open XV XV.Rx XV.Tz XV.Src XV.Peg
+
+/-- a verdict of the whole pipeline that is not a hang: not the tokenizer's loop fuel, not the parser's fuel -/
+def Out.terminated : Out → Prop
+  | .tokenizerError e _ => e ≠ .loopFuel
+  | .parsed o _ => o ≠ .outOfFuel
+
+/-- **parse_string_total (C03, the composed pipeline).**  For every character environment, every pattern set with
+    progressing pseudo-token branches, every parser program that passes the well-formedness checker, and EVERY text:
+    tokenizing, filtering and parsing reach a verdict - a tree, a syntax error, or the tokenizer's TokenError /
+    IndentationError (or its regex engine's own fuel bound, which is a bound of the model's matcher, not a loop of the
+    code).  Neither the scan loops of the tokenizer nor the recursion and loops of the parser can go on forever. -/
+theorem parse_string_total (E : Env) (P : Pats) (hP : PseudoProgress P) (T : Tables) (W : WfW) (hcert : wfCert T.prog W = true)
+    (src : List Nat) : ∃ fuel, (parseString E P T fuel src).terminated := by
+  obtain ⟨fuel, hf⟩ := parse_total (W := W) hcert
+    ((kept E (tokenize E P src).toks).map (toRTok T.strings T.kws T.softs)).toArray T.start false
+  refine ⟨fuel, ?_⟩
+  unfold parseString
+  simp only []
+  split
+  · rename_i e _ herr _
+    exact fun hc => tokenize_total E P hP src (by rw [herr, hc])
+  · exact hf
+
+end XV.Pipe
